@@ -145,6 +145,23 @@ type MapV struct {
 	Elem types.Type
 }
 
+// mapEntry is an update with a non-constant key, kept in program order.
+type mapEntry struct {
+	K, V Val
+	Cond Bit
+}
+
+// RangeV is a map iterator: the sequence of (present, key, value) it yields.
+type RangeV struct {
+	Items []rangeItem
+	pos   *int
+}
+
+type rangeItem struct {
+	OK   Bit
+	K, V Val
+}
+
 // SnapV is a pointer argument of an opaque call together with the contents of
 // the array it pointed to at the time of the call.
 type SnapV struct {
